@@ -323,41 +323,113 @@ theorem nxCTNAT_repeatable (v : V) : Repeatable NXActionCTNAT.lenM NXActionCTNAT
     rw [after v l v1 h1]; exact h2
 
 
-/-- NXActionConnTrack, for ANY encoder `sub` of the nested actions that is itself idempotent on them:
-    Len() is the stored length (pure); MarshalBinary() threads the nested actions' modifications -/
-theorem nxConnTrack_repeatable (sub : V → R (Bytes × V)) (v : V)
-    (hsub : ∀ a b a', sub a = .ok (b, a') → sub a' = .ok (b, a')) :
-    Repeatable NXActionConnTrack.lenM (NXActionConnTrack.marshalWith sub) v := by
-  have hlp := NXActionConnTrack.lenM_pure v
-  refine ⟨hlp.idem, ?_, ?_, ?_⟩
+
+/-- NXActionConnTrack, for ANY repeatable Len() / encoder pair of the nested actions:
+    Len() recomputes the size from the nested actions and stores it in the header; MarshalBinary() calls Len() and
+    threads what the nested encoders store.  Repeatable in any order. -/
+theorem nxConnTrack_repeatable (subLen : V → R (UInt16 × V)) (sub : V → R (Bytes × V))
+    (hsub : ∀ a, Repeatable subLen sub a) (v : V) :
+    Repeatable (NXActionConnTrack.lenWith subLen) (NXActionConnTrack.marshalWith subLen sub) v := by
+  have hidem := NXActionConnTrack.lenWith_idem subLen (fun a => (hsub a).lenIdem)
+  -- MarshalBinary() on a value Len() has already run over
+  have cont : ∀ w l, NXActionConnTrack.lenWith subLen w = .ok (l, w) →
+      NXActionConnTrack.marshalWith subLen sub w =
+        (match w with
+          | .obj "NXActionConnTrack" [h, .num fl, .num zs, .num zo, .num rt, .bytes pad, .num alg, .list acts] => do
+            let hb ← NXActionHeader.bytes h
+            let buf ← fill l.toNat [pCopy hb, pU16 fl, pU32 zs, pU16 zo, pU8 rt, pCopyAdv pad 3, pU16 alg]
+            let (buf', acts') ← NXActionConnTrack.marshalActs sub acts buf 24
+            .ok (buf', .obj "NXActionConnTrack" [h, .num fl, .num zs, .num zo, .num rt, .bytes pad, .num alg, .list acts'])
+          | _ => .panic) := by
+    intro w l hw
+    unfold NXActionConnTrack.marshalWith
+    rw [hw]
+    rfl
+  -- Len() only looks at the header and the nested actions' sizes
+  have lenOf : ∀ h a b c d e f acts ls acts1 l, mapM2 subLen acts = .ok (ls, acts1) →
+      l = n16 Gen.openflow13.NxActionHeaderLength + 14 + sum16 ls →
+      ∀ h', NXActionHeader.setLength l h = .ok h' →
+      NXActionConnTrack.lenWith subLen (.obj "NXActionConnTrack" [h, a, b, c, d, e, f, .list acts]) =
+        .ok (l, .obj "NXActionConnTrack" [h', a, b, c, d, e, f, .list acts1]) := by
+    intro h a b c d e f acts ls acts1 l hm hl h' hs
+    subst hl
+    simp only [NXActionConnTrack.lenWith, NXActionHeader.lenM, same, Res.bind_ok, hm, hs]
+  -- one successful MarshalBinary()
+  have shape : ∀ w bs v2, NXActionConnTrack.marshalWith subLen sub w = .ok (bs, v2) →
+      ∃ l w1 h fl zs zo rt pad alg acts1 hb buf bss acts2,
+        NXActionConnTrack.lenWith subLen w = .ok (l, w1) ∧
+        w1 = .obj "NXActionConnTrack" [h, .num fl, .num zs, .num zo, .num rt, .bytes pad, .num alg, .list acts1] ∧
+        NXActionHeader.bytes h = .ok hb ∧
+        fill l.toNat [pCopy hb, pU16 fl, pU32 zs, pU16 zo, pU8 rt, pCopyAdv pad 3, pU16 alg] = .ok buf ∧
+        mapM2 sub acts1 = .ok (bss, acts2) ∧ writeAll buf 24 bss = .ok bs ∧
+        v2 = .obj "NXActionConnTrack" [h, .num fl, .num zs, .num zo, .num rt, .bytes pad, .num alg, .list acts2] := by
+    intro w bs v2 h2
+    unfold NXActionConnTrack.marshalWith at h2
+    obtain ⟨⟨l, w1⟩, hl, h3⟩ := bind_ok_inv _ _ _ h2
+    simp only at h3
+    split at h3
+    · rename_i h fl zs zo rt pad alg acts1
+      obtain ⟨hb, hhb, h4⟩ := bind_ok_inv _ _ _ h3
+      obtain ⟨buf, hbuf, h5⟩ := bind_ok_inv _ _ _ h4
+      obtain ⟨⟨buf', acts2⟩, hacts, h6⟩ := bind_ok_inv _ _ _ h5
+      cases h6
+      obtain ⟨bss, hm, hw⟩ := NXActionConnTrack.marshalActs_split _ _ _ _ _ _ hacts
+      exact ⟨l, _, h, fl, zs, zo, rt, pad, alg, acts1, hb, buf, bss, acts2, hl, rfl, hhb, hbuf, hm, hw, rfl⟩
+    · exact absurd h3 (by simp)
+  -- the pieces of a successful Len()
+  have lenShape : ∀ w l w1, NXActionConnTrack.lenWith subLen w = .ok (l, w1) →
+      ∃ h a b c d e f acts ls acts1 h', w = .obj "NXActionConnTrack" [h, a, b, c, d, e, f, .list acts] ∧
+        mapM2 subLen acts = .ok (ls, acts1) ∧ l = n16 Gen.openflow13.NxActionHeaderLength + 14 + sum16 ls ∧
+        NXActionHeader.setLength l h = .ok h' ∧ w1 = .obj "NXActionConnTrack" [h', a, b, c, d, e, f, .list acts1] := by
+    intro w l w1 hw
+    unfold NXActionConnTrack.lenWith at hw
+    split at hw
+    · rename_i h a b c d e f acts
+      obtain ⟨⟨hl, h0⟩, hh, hw2⟩ := bind_ok_inv _ _ _ hw
+      obtain ⟨e1, e2⟩ := same_ok _ _ _ _ hh
+      subst e1; subst e2
+      obtain ⟨⟨ls, acts1⟩, hm, hw3⟩ := bind_ok_inv _ _ _ hw2
+      obtain ⟨h', hs, hw4⟩ := bind_ok_inv _ _ _ hw3
+      cases hw4
+      exact ⟨_, a, b, c, d, e, f, acts, ls, acts1, h', rfl, hm, rfl, hs, rfl⟩
+    · exact absurd hw (by simp)
+  -- Len() after the encoder loop ran over the nested actions
+  have lenAfter : ∀ l w1 h fl zs zo rt pad alg acts1 bss acts2,
+      NXActionConnTrack.lenWith subLen w1 = .ok (l, w1) →
+      w1 = .obj "NXActionConnTrack" [h, .num fl, .num zs, .num zo, .num rt, .bytes pad, .num alg, .list acts1] →
+      mapM2 sub acts1 = .ok (bss, acts2) →
+      NXActionConnTrack.lenWith subLen (.obj "NXActionConnTrack" [h, .num fl, .num zs, .num zo, .num rt, .bytes pad, .num alg, .list acts2]) =
+        .ok (l, .obj "NXActionConnTrack" [h, .num fl, .num zs, .num zo, .num rt, .bytes pad, .num alg, .list acts2]) := by
+    intro l w1 h fl zs zo rt pad alg acts1 bss acts2 hl hw1 hm
+    subst hw1
+    obtain ⟨h0, a, b, c, d, e, f, acts, ls, acts1', h', heq, hml, hleq, hs, heq2⟩ := lenShape _ _ _ hl
+    cases heq
+    cases heq2
+    have hml2 := mapM2_len_after_mar subLen sub _ _ _ _ _ hml hm
+      (fun x _ l y b z hx hy => (hsub x).lenAfterMar l y b z hx hy)
+    exact lenOf _ _ _ _ _ _ _ _ _ _ _ hml2 hleq _ hs
+  refine ⟨hidem v, ?_, ?_, ?_⟩
   · intro bs v2 h2
-    unfold NXActionConnTrack.marshalWith at h2
-    split at h2
-    · obtain ⟨l, hl, h3⟩ := bind_ok_inv _ _ _ h2
-      obtain ⟨hb, hhb, h4⟩ := bind_ok_inv _ _ _ h3
-      obtain ⟨buf, hf, h5⟩ := bind_ok_inv _ _ _ h4
-      obtain ⟨⟨buf', acts'⟩, hacts, h6⟩ := bind_ok_inv _ _ _ h5
-      cases h6
-      have := NXActionConnTrack.marshalActs_idem sub _ _ _ _ _ (fun a _ => hsub a) hacts
-      simp only [NXActionConnTrack.marshalWith, hl, hhb, hf, this, Res.bind_ok]
-    · exact absurd h2 (by simp)
+    obtain ⟨l, w1, h, fl, zs, zo, rt, pad, alg, acts1, hb, buf, bss, acts2, hl, hw1, hhb, hbuf, hm, hw, rfl⟩ := shape v bs v2 h2
+    have hl1 := hidem v l w1 hl
+    have hl2 := lenAfter l w1 h fl zs zo rt pad alg acts1 bss acts2 hl1 hw1 hm
+    have hm2 := mapM2_idem sub _ _ _ (fun x _ b z hx => (hsub x).marIdem b z hx) hm
+    rw [cont _ _ hl2]
+    simp only [hhb, hbuf, Res.bind_ok, NXActionConnTrack.marshalActs_join _ _ _ _ _ _ _ hm2 hw]
   · intro l v1 bs v2 h1 h2
-    unfold NXActionConnTrack.marshalWith at h2
-    split at h2
-    · obtain ⟨l', hl, h3⟩ := bind_ok_inv _ _ _ h2
-      obtain ⟨hb, hhb, h4⟩ := bind_ok_inv _ _ _ h3
-      obtain ⟨buf, hf, h5⟩ := bind_ok_inv _ _ _ h4
-      obtain ⟨⟨buf', acts'⟩, hacts, h6⟩ := bind_ok_inv _ _ _ h5
-      cases h6
-      simp only [NXActionConnTrack.lenM] at h1 ⊢
-      obtain ⟨l'', hl2, h1'⟩ := bind_ok_inv _ _ _ h1
-      obtain ⟨rfl, _⟩ := same_ok _ _ _ _ h1'
-      simp only [hl2, Res.bind_ok, same]
-    · exact absurd h2 (by simp)
+    obtain ⟨l', w1, h, fl, zs, zo, rt, pad, alg, acts1, hb, buf, bss, acts2, hl, hw1, hhb, hbuf, hm, hw, rfl⟩ := shape v bs v2 h2
+    rw [h1] at hl
+    cases hl
+    have hl1 := hidem v l v1 h1
+    exact lenAfter l v1 h fl zs zo rt pad alg acts1 bss acts2 hl1 hw1 hm
   · intro l v1 bs v2 h1 h2
-    have := hlp l v1 h1
-    subst this
-    exact h2
+    obtain ⟨l', w1, h, fl, zs, zo, rt, pad, alg, acts1, hb, buf, bss, acts2, hl, hw1, hhb, hbuf, hm, hw, rfl⟩ := shape v bs v2 h2
+    rw [h1] at hl
+    cases hl
+    have hl1 := hidem v l v1 h1
+    rw [cont _ _ hl1]
+    subst hw1
+    simp only [hhb, hbuf, Res.bind_ok, NXActionConnTrack.marshalActs_join _ _ _ _ _ _ _ hm hw]
 
 /-! ### the Action interface -/
 
@@ -400,12 +472,12 @@ theorem marshalD_kind (d : Nat) (v : V) (bs : Bytes) (v2 : V) (h : Action.marsha
   | succ d =>
     unfold Action.marshalD at h
     split at h
-    · exact NXActionConnTrack.marshalWith_kind _ v bs v2 h
+    · exact NXActionConnTrack.marshalWith_kind _ _ v bs v2 h
     · exact marshalLeaf_kind v bs v2 h
 
 /-- every action kind except conntrack, through the interface dispatch -/
-theorem action_repeatable_leaf (v : V) : Repeatable Action.lenM Action.marshalLeaf v := by
-  refine ⟨Action.lenM_idem v, ?_, ?_, ?_⟩
+theorem action_repeatable_leaf (v : V) : Repeatable Action.lenLeaf Action.marshalLeaf v := by
+  refine ⟨Action.lenLeaf_idem v, ?_, ?_, ?_⟩
   · intro bs v2 h2
     have hkind := marshalLeaf_kind v bs v2 h2
     unfold Action.marshalLeaf at h2 ⊢
@@ -442,7 +514,7 @@ theorem action_repeatable_leaf (v : V) : Repeatable Action.lenM Action.marshalLe
       | exact absurd h2 (by simp)
   · intro l v1 bs v2 h1 h2
     have hkind := marshalLeaf_kind v bs v2 h2
-    unfold Action.lenM at h1 ⊢
+    unfold Action.lenLeaf at h1 ⊢
     unfold Action.marshalLeaf at h2
     split at h1 <;> rename_i hk <;> simp only [hk] at h2
     all_goals first
@@ -478,42 +550,41 @@ theorem action_repeatable_leaf (v : V) : Repeatable Action.lenM Action.marshalLe
       | exact absurd h1 (by simp)
   · intro l v1 bs v2 h1 h2
     by_cases hk : v.kind = "NXActionCTNAT"
-    · have hkind := Action.lenM_kind v l v1 h1
+    · have hkind := Action.lenLeaf_kind v l v1 h1
       rw [hk] at hkind
-      unfold Action.lenM at h1
+      unfold Action.lenLeaf at h1
       unfold Action.marshalLeaf at h2 ⊢
       simp only [hk] at h1 h2
       simp only [hkind]
       exact (nxCTNAT_repeatable v).marAfterLen l v1 bs v2 h1 h2
-    · have := Action.lenM_pure v hk l v1 h1
+    · have := Action.lenLeaf_pure v hk l v1 h1
       subst this
       exact h2
 
+
 theorem marshalD_succ_ct (d : Nat) (v : V) (hk : v.kind = "NXActionConnTrack") :
-    Action.marshalD (d + 1) v = NXActionConnTrack.marshalWith (Action.marshalD d) v := by
+    Action.marshalD (d + 1) v = NXActionConnTrack.marshalWith (Action.lenD d) (Action.marshalD d) v := by
   unfold Action.marshalD; simp only [hk, if_true]
 theorem marshalD_succ_leaf (d : Nat) (v : V) (hk : v.kind ≠ "NXActionConnTrack") :
     Action.marshalD (d + 1) v = Action.marshalLeaf v := by
   rw [Action.marshalD]; simp only [hk, if_false]
-theorem lenM_ct (v : V) (hk : v.kind = "NXActionConnTrack") : Action.lenM v = NXActionConnTrack.lenM v := by
-  unfold Action.lenM; simp only [hk]
 
 /-- Action.Len() / Action.MarshalBinary() through the interface are repeatable, in any order, for EVERY action value
     (any kind, any field values, conntrack actions nested to any depth) -/
-theorem action_repeatableD : ∀ (d : Nat) (v : V), Repeatable Action.lenM (Action.marshalD d) v := by
+theorem action_repeatableD : ∀ (d : Nat) (v : V), Repeatable (Action.lenD d) (Action.marshalD d) v := by
   intro d
   induction d with
   | zero =>
     intro v
-    refine ⟨Action.lenM_idem v, ?_, ?_, ?_⟩
+    refine ⟨Action.lenD_idem 0 v, ?_, ?_, ?_⟩
     · intro bs v2 h2; exact absurd h2 (by simp [Action.marshalD])
     · intro l v1 bs v2 _ h2; exact absurd h2 (by simp [Action.marshalD])
     · intro l v1 bs v2 _ h2; exact absurd h2 (by simp [Action.marshalD])
   | succ d ih =>
     intro v
     by_cases hk : v.kind = "NXActionConnTrack"
-    · have R := nxConnTrack_repeatable (Action.marshalD d) v (fun a b a' h => (ih a).marIdem b a' h)
-      refine ⟨Action.lenM_idem v, ?_, ?_, ?_⟩
+    · have R := nxConnTrack_repeatable (Action.lenD d) (Action.marshalD d) ih v
+      refine ⟨Action.lenD_idem _ v, ?_, ?_, ?_⟩
       · intro bs v2 h2
         have hk2 := marshalD_kind _ v bs v2 h2
         rw [hk] at hk2
@@ -524,29 +595,33 @@ theorem action_repeatableD : ∀ (d : Nat) (v : V), Repeatable Action.lenM (Acti
         have hk2 := marshalD_kind _ v bs v2 h2
         rw [hk] at hk2
         rw [marshalD_succ_ct d v hk] at h2
-        rw [lenM_ct v hk] at h1
-        rw [lenM_ct v2 hk2]
+        rw [Action.lenD_succ_ct d v hk] at h1
+        rw [Action.lenD_succ_ct d v2 hk2]
         exact R.lenAfterMar l v1 bs v2 h1 h2
       · intro l v1 bs v2 h1 h2
-        have hk1 := Action.lenM_kind v l v1 h1
+        have hk1 := Action.lenD_kind _ v l v1 h1
         rw [hk] at hk1
         rw [marshalD_succ_ct d v hk] at h2
-        rw [lenM_ct v hk] at h1
+        rw [Action.lenD_succ_ct d v hk] at h1
         rw [marshalD_succ_ct d v1 hk1]
         exact R.marAfterLen l v1 bs v2 h1 h2
     · have R := action_repeatable_leaf v
-      refine ⟨Action.lenM_idem v, ?_, ?_, ?_⟩
+      refine ⟨Action.lenD_idem _ v, ?_, ?_, ?_⟩
       · intro bs v2 h2
         have hk2 := marshalD_kind _ v bs v2 h2
         rw [marshalD_succ_leaf d v hk] at h2
         rw [marshalD_succ_leaf d v2 (by rw [hk2]; exact hk)]
         exact R.marIdem bs v2 h2
       · intro l v1 bs v2 h1 h2
+        have hk2 := marshalD_kind _ v bs v2 h2
         rw [marshalD_succ_leaf d v hk] at h2
+        rw [Action.lenD_succ_leaf d v hk] at h1
+        rw [Action.lenD_succ_leaf d v2 (by rw [hk2]; exact hk)]
         exact R.lenAfterMar l v1 bs v2 h1 h2
       · intro l v1 bs v2 h1 h2
-        have hk1 := Action.lenM_kind v l v1 h1
+        have hk1 := Action.lenD_kind _ v l v1 h1
         rw [marshalD_succ_leaf d v hk] at h2
+        rw [Action.lenD_succ_leaf d v hk] at h1
         rw [marshalD_succ_leaf d v1 (by rw [hk1]; exact hk)]
         exact R.marAfterLen l v1 bs v2 h1 h2
 
@@ -555,7 +630,7 @@ theorem action_repeatable (v : V) : Repeatable Action.lenM Action.marshalM v := 
 
 /-- NXActionConnTrack with the knot tied -/
 theorem nxConnTrack_repeatable' (v : V) : Repeatable NXActionConnTrack.lenM NXActionConnTrack.marshalM v :=
-  nxConnTrack_repeatable _ v (fun a b a' h => (action_repeatableD _ a).marIdem b a' h)
+  nxConnTrack_repeatable _ _ (action_repeatableD _) v
 
 
 /-- what one successful run of the `append` loop over actions is: `mapM2` + concatenation, error flag false -/
@@ -564,6 +639,26 @@ theorem actions_loop (as : List V) (e : Bool) (bs : Bytes) (as2 : List V) (e' : 
     ∃ bss, mapM2 Action.marshalM as = .ok (bss, as2) ∧ bs = bss.flatten ∧ e' = (if as = [] then e else false) := by
   obtain ⟨bss, hm, rfl⟩ := marshalList_eq_mapM2 _ _ _ _ _ _ (fun x _ => Action.marshalM_noErr x) h
   exact ⟨bss, hm, rfl, marshalList_flag _ _ _ _ _ _ (fun x _ => Action.marshalM_noErr x) h⟩
+
+/-! ### lists of actions -/
+
+/-- lists of actions: the three facts containers need -/
+theorem actions_len_idem (as : List V) (ls : List UInt16) (as1 : List V) (h : mapM2 Action.lenM as = .ok (ls, as1)) :
+    mapM2 Action.lenM as1 = .ok (ls, as1) :=
+  mapM2_idem Action.lenM as ls as1 (fun x _ a x' hx => Action.lenM_idem x a x' hx) h
+theorem actions_mar_idem (as : List V) (bss : List Bytes) (as2 : List V) (h : mapM2 Action.marshalM as = .ok (bss, as2)) :
+    mapM2 Action.marshalM as2 = .ok (bss, as2) :=
+  mapM2_idem Action.marshalM as bss as2 (fun x _ b z hx => (action_repeatable x).marIdem b z hx) h
+theorem actions_len_after_mar (as : List V) (ls : List UInt16) (as1 : List V) (bss : List Bytes) (as2 : List V)
+    (h1 : mapM2 Action.lenM as = .ok (ls, as1)) (h2 : mapM2 Action.marshalM as = .ok (bss, as2)) :
+    mapM2 Action.lenM as2 = .ok (ls, as2) :=
+  mapM2_len_after_mar Action.lenM Action.marshalM as ls as1 bss as2 h1 h2
+    (fun x _ l y b z hx hy => (action_repeatable x).lenAfterMar l y b z hx hy)
+theorem actions_mar_after_len (as : List V) (ls : List UInt16) (as1 : List V) (bss : List Bytes) (as2 : List V)
+    (h1 : mapM2 Action.lenM as = .ok (ls, as1)) (h2 : mapM2 Action.marshalM as = .ok (bss, as2)) :
+    mapM2 Action.marshalM as1 = .ok (bss, as2) :=
+  mapM2_mar_after_len Action.lenM Action.marshalM as ls as1 bss as2 h1 h2
+    (fun x _ l y b z hx hy => (action_repeatable x).marAfterLen l y b z hx hy)
 
 /-! ### instructions -/
 
@@ -576,68 +671,87 @@ theorem instrWriteMetadata_pure (v : V) : Pure2 InstrWriteMetadata.lenM InstrWri
 theorem instrMeter_pure (v : V) : Pure2 InstrMeter.lenM InstrMeter.marshalM v :=
   ⟨fun _ _ h => (same_ok _ _ _ _ h).2, InstrMeter.marshalM_pure v⟩
 
-/-- InstrActions: whatever the actions store when sized or encoded stays inside the instruction, and sizing /
-    encoding the instruction again — in any order — gives the same answers -/
+
+/-- InstrActions: Len() threads what the actions store; MarshalBinary() calls Len(), stores `Length = Len()` in the
+    instruction header and encodes the actions.  Sizing / encoding the instruction again — in any order — gives the
+    same answers and changes nothing further. -/
 theorem instrActions_repeatable (v : V) : Repeatable InstrActions.lenM InstrActions.marshalM v := by
-  -- one successful MarshalBinary()
+  have lenOf : ∀ h p as ls as1, mapM2 Action.lenM as = .ok (ls, as1) →
+      InstrActions.lenM (.obj "InstrActions" [h, p, .list as]) = .ok (8 + sum16 ls, .obj "InstrActions" [h, p, .list as1]) := by
+    intro h p as ls as1 hm
+    simp only [InstrActions.lenM, hm, Res.bind_ok]
+  have build : ∀ t x pad as ls bss as2 hb, mapM2 Action.lenM as = .ok (ls, as) →
+      InstrHeader.bytes (.obj "InstrHeader" [t, V.u16 (8 + sum16 ls)]) = .ok hb →
+      mapM2 Action.marshalM as = .ok (bss, as2) →
+      InstrActions.marshalM (.obj "InstrActions" [.obj "InstrHeader" [t, x], .bytes pad, .list as]) =
+        .ok (hb ++ makeCopy 4 pad ++ bss.flatten,
+             .obj "InstrActions" [.obj "InstrHeader" [t, V.u16 (8 + sum16 ls)], .bytes pad, .list as2]) := by
+    intro t x pad as ls bss as2 hb hl hhb hm
+    have := marshalList_of_mapM2 Action.marshalM as false bss as2 hm
+    simp only [InstrActions.marshalM, lenOf _ _ _ _ _ hl, Res.bind_ok, hhb, this]
+    split <;> simp
   have shape : ∀ w bs v2, InstrActions.marshalM w = .ok (bs, v2) →
-      ∃ h pad as hb bss as2, w = .obj "InstrActions" [h, .bytes pad, .list as] ∧ InstrHeader.bytes h = .ok hb ∧
-        mapM2 Action.marshalM as = .ok (bss, as2) ∧ bs = hb ++ makeCopy 4 pad ++ bss.flatten ∧
-        v2 = .obj "InstrActions" [h, .bytes pad, .list as2] := by
+      ∃ t x pad as ls as1 hb bss as2, w = .obj "InstrActions" [.obj "InstrHeader" [t, x], .bytes pad, .list as] ∧
+        mapM2 Action.lenM as = .ok (ls, as1) ∧
+        InstrHeader.bytes (.obj "InstrHeader" [t, V.u16 (8 + sum16 ls)]) = .ok hb ∧
+        mapM2 Action.marshalM as1 = .ok (bss, as2) ∧ bs = hb ++ makeCopy 4 pad ++ bss.flatten ∧
+        v2 = .obj "InstrActions" [.obj "InstrHeader" [t, V.u16 (8 + sum16 ls)], .bytes pad, .list as2] := by
     intro w bs v2 h2
     unfold InstrActions.marshalM at h2
-    split at h2
-    · rename_i h pad as
-      obtain ⟨hb, hhb, h3⟩ := bind_ok_inv _ _ _ h2
-      obtain ⟨⟨abs, as2, e⟩, hml, h4⟩ := bind_ok_inv _ _ _ h3
-      obtain ⟨bss, hm, rfl, he⟩ := actions_loop _ _ _ _ _ hml
-      simp only at h4
-      split at h4
-      · exact absurd h4 (by simp)
-      · cases h4
-        exact ⟨h, pad, as, hb, bss, as2, rfl, hhb, hm, rfl, rfl⟩
-    · exact absurd h2 (by simp)
-  -- and the converse
-  have build : ∀ h pad as hb bss as2, InstrHeader.bytes h = .ok hb → mapM2 Action.marshalM as = .ok (bss, as2) →
-      InstrActions.marshalM (.obj "InstrActions" [h, .bytes pad, .list as]) =
-        .ok (hb ++ makeCopy 4 pad ++ bss.flatten, .obj "InstrActions" [h, .bytes pad, .list as2]) := by
-    intro h pad as hb bss as2 hhb hm
-    have := marshalList_of_mapM2 Action.marshalM as false bss as2 hm
-    simp only [InstrActions.marshalM, hhb, this, Res.bind_ok]
-    split <;> simp
+    obtain ⟨⟨l, v'⟩, hl, h3⟩ := bind_ok_inv _ _ _ h2
+    unfold InstrActions.lenM at hl
+    split at hl
+    · rename_i h p as
+      obtain ⟨⟨ls, as1⟩, hm, hl'⟩ := bind_ok_inv _ _ _ hl
+      cases hl'
+      simp only at h3
+      split at h3
+      · rename_i heq
+        cases heq
+        obtain ⟨hb, hhb, h4⟩ := bind_ok_inv _ _ _ h3
+        obtain ⟨⟨abs, as2, e⟩, hml, h5⟩ := bind_ok_inv _ _ _ h4
+        obtain ⟨bss, hmm, rfl, he⟩ := actions_loop _ _ _ _ _ hml
+        simp only at h5
+        split at h5
+        · exact absurd h5 (by simp)
+        · cases h5
+          exact ⟨_, _, _, as, ls, as1, hb, bss, as2, rfl, hm, hhb, hmm, rfl, rfl⟩
+      · exact absurd h3 (by simp)
+    · exact absurd hl (by simp)
   refine ⟨InstrActions.lenM_idem v, ?_, ?_, ?_⟩
   · intro bs v2 h2
-    obtain ⟨h, pad, as, hb, bss, as2, rfl, hhb, hm, rfl, rfl⟩ := shape v bs v2 h2
-    have hm2 := mapM2_idem Action.marshalM as bss as2 (fun x _ b z hx => (action_repeatable x).marIdem b z hx) hm
-    exact build h pad as2 hb bss as2 hhb hm2
+    obtain ⟨t, x, pad, as, ls, as1, hb, bss, as2, rfl, hl, hhb, hm, rfl, rfl⟩ := shape v bs v2 h2
+    have hl1 := actions_len_idem _ _ _ hl
+    have hl2 := actions_len_after_mar _ _ _ _ _ hl1 hm
+    have hm2 := actions_mar_idem _ _ _ hm
+    exact build t _ pad as2 ls bss as2 hb hl2 hhb hm2
   · intro l v1 bs v2 h1 h2
-    obtain ⟨h, pad, as, hb, bss, as2, rfl, hhb, hm, rfl, rfl⟩ := shape v bs v2 h2
-    simp only [InstrActions.lenM] at h1 ⊢
-    obtain ⟨⟨ls, as1⟩, hl, h1'⟩ := bind_ok_inv _ _ _ h1
-    cases h1'
-    have := mapM2_len_after_mar Action.lenM Action.marshalM as ls as1 bss as2 hl hm
-      (fun x _ l y b z hx hy => (action_repeatable x).lenAfterMar l y b z hx hy)
-    simp only [this, Res.bind_ok]
+    obtain ⟨t, x, pad, as, ls, as1, hb, bss, as2, rfl, hl, hhb, hm, rfl, rfl⟩ := shape v bs v2 h2
+    rw [lenOf _ _ _ _ _ hl] at h1
+    cases h1
+    have hl1 := actions_len_idem _ _ _ hl
+    have hl2 := actions_len_after_mar _ _ _ _ _ hl1 hm
+    exact lenOf _ _ _ _ _ hl2
   · intro l v1 bs v2 h1 h2
-    obtain ⟨h, pad, as, hb, bss, as2, rfl, hhb, hm, rfl, rfl⟩ := shape v bs v2 h2
-    simp only [InstrActions.lenM] at h1
-    obtain ⟨⟨ls, as1⟩, hl, h1'⟩ := bind_ok_inv _ _ _ h1
-    cases h1'
-    have := mapM2_mar_after_len Action.lenM Action.marshalM as ls as1 bss as2 hl hm
-      (fun x _ l y b z hx hy => (action_repeatable x).marAfterLen l y b z hx hy)
-    exact build h pad as1 hb bss as2 hhb this
+    obtain ⟨t, x, pad, as, ls, as1, hb, bss, as2, rfl, hl, hhb, hm, rfl, rfl⟩ := shape v bs v2 h2
+    rw [lenOf _ _ _ _ _ hl] at h1
+    cases h1
+    have hl1 := actions_len_idem _ _ _ hl
+    exact build t x pad as1 ls bss as2 hb hl1 hhb hm
 
 theorem instrActions_marshal_kind (v : V) (bs : Bytes) (v2 : V) (h : InstrActions.marshalM v = .ok (bs, v2)) :
     v2.kind = "InstrActions" := by
   unfold InstrActions.marshalM at h
-  split at h
-  · obtain ⟨hb, hhb, h3⟩ := bind_ok_inv _ _ _ h
-    obtain ⟨⟨abs, as2, e⟩, hml, h4⟩ := bind_ok_inv _ _ _ h3
-    simp only at h4
-    split at h4
-    · exact absurd h4 (by simp)
-    · cases h4; rfl
-  · exact absurd h (by simp)
+  obtain ⟨⟨l, v'⟩, hl, h3⟩ := bind_ok_inv _ _ _ h
+  simp only at h3
+  split at h3
+  · obtain ⟨hb, hhb, h4⟩ := bind_ok_inv _ _ _ h3
+    obtain ⟨⟨abs, as2, e⟩, hml, h5⟩ := bind_ok_inv _ _ _ h4
+    simp only at h5
+    split at h5
+    · exact absurd h5 (by simp)
+    · cases h5; rfl
+  · exact absurd h3 (by simp)
 
 /-- the Instruction interface: repeatable for every instruction value -/
 theorem instruction_repeatable (v : V) : Repeatable Instruction.lenM Instruction.marshalM v := by
@@ -683,6 +797,502 @@ theorem instruction_repeatable (v : V) : Repeatable Instruction.lenM Instruction
     · obtain ⟨_, e⟩ := same_ok _ _ _ _ h1; subst e
       unfold Instruction.marshalM; simp only [hk]; exact h2
     · exact absurd h1 (by simp)
+
+/-! ### buckets -/
+
+/-- the fixed 16 bytes of a bucket -/
+def bucketHdr (l : UInt16) (w wp wg : Nat) : Bytes := be16 l ++ be16 (n16 w) ++ be32 (n32 wp) ++ be32 (n32 wg) ++ zeros 4
+
+theorem u16_roundtrip (l : UInt16) : n16 l.toNat = l := by
+  apply UInt16.toNat_inj.mp
+  simp only [n16, UInt16.toNat_ofNat']
+  exact Nat.mod_eq_of_lt l.toNat_lt
+
+/-- Bucket: MarshalBinary() stores `Length = Len()` in the receiver (and the actions may store things too);
+    sizing / encoding again, in any order, gives the same answers and changes nothing further -/
+theorem bucket_repeatable (v : V) : Repeatable Bucket.lenM Bucket.marshalM v := by
+  have lenOf : ∀ l0 w wp wg p as ls as1, mapM2 Action.lenM as = .ok (ls, as1) →
+      Bucket.lenM (.obj "Bucket" [l0, w, wp, wg, p, .list as]) =
+        .ok (round8 (16 + sum16 ls), .obj "Bucket" [l0, w, wp, wg, p, .list as1]) := by
+    intro l0 w wp wg p as ls as1 h
+    simp only [Bucket.lenM, h, Res.bind_ok]
+  have build : ∀ l0 w wp wg p as ls bss as2, mapM2 Action.lenM as = .ok (ls, as) →
+      mapM2 Action.marshalM as = .ok (bss, as2) →
+      Bucket.marshalM (.obj "Bucket" [l0, .num w, .num wp, .num wg, p, .list as]) =
+        .ok (bucketHdr (round8 (16 + sum16 ls)) w wp wg ++ bss.flatten,
+             .obj "Bucket" [V.u16 (round8 (16 + sum16 ls)), .num w, .num wp, .num wg, p, .list as2]) := by
+    intro l0 w wp wg p as ls bss as2 hl hm
+    have := marshalList_of_mapM2 Action.marshalM as false bss as2 hm
+    simp only [Bucket.marshalM, lenOf _ _ _ _ _ _ _ _ hl, Res.bind_ok, this, bucketHdr]
+    split <;> simp
+  have shape : ∀ w bs v2, Bucket.marshalM w = .ok (bs, v2) →
+      ∃ l0 wt wp wg p as ls as1 bss as2, w = .obj "Bucket" [l0, .num wt, .num wp, .num wg, p, .list as] ∧
+        mapM2 Action.lenM as = .ok (ls, as1) ∧ mapM2 Action.marshalM as1 = .ok (bss, as2) ∧
+        bs = bucketHdr (round8 (16 + sum16 ls)) wt wp wg ++ bss.flatten ∧
+        v2 = .obj "Bucket" [V.u16 (round8 (16 + sum16 ls)), .num wt, .num wp, .num wg, p, .list as2] := by
+    intro w bs v2 h2
+    unfold Bucket.marshalM at h2
+    obtain ⟨⟨l, v'⟩, hl, h3⟩ := bind_ok_inv _ _ _ h2
+    unfold Bucket.lenM at hl
+    split at hl
+    · rename_i l0 w' wp' wg' p as
+      obtain ⟨⟨ls, as1⟩, hm, hl'⟩ := bind_ok_inv _ _ _ hl
+      cases hl'
+      simp only at h3
+      split at h3
+      · rename_i heq
+        cases heq
+        obtain ⟨⟨abs, as2, e⟩, hml, h4⟩ := bind_ok_inv _ _ _ h3
+        obtain ⟨bss, hmm, rfl, he⟩ := actions_loop _ _ _ _ _ hml
+        simp only at h4
+        split at h4
+        · exact absurd h4 (by simp)
+        · cases h4
+          exact ⟨l0, _, _, _, p, as, ls, as1, bss, as2, rfl, hm, hmm, rfl, rfl⟩
+      · exact absurd h3 (by simp)
+    · exact absurd hl (by simp)
+  refine ⟨Bucket.lenM_idem v, ?_, ?_, ?_⟩
+  · intro bs v2 h2
+    obtain ⟨l0, wt, wp, wg, p, as, ls, as1, bss, as2, rfl, hl, hm, rfl, rfl⟩ := shape v bs v2 h2
+    have hl1 := actions_len_idem _ _ _ hl
+    have hl2 := actions_len_after_mar _ _ _ _ _ hl1 hm
+    have hm2 := actions_mar_idem _ _ _ hm
+    exact build _ wt wp wg p as2 ls bss as2 hl2 hm2
+  · intro l v1 bs v2 h1 h2
+    obtain ⟨l0, wt, wp, wg, p, as, ls, as1, bss, as2, rfl, hl, hm, rfl, rfl⟩ := shape v bs v2 h2
+    rw [lenOf _ _ _ _ _ _ _ _ hl] at h1
+    cases h1
+    have hl1 := actions_len_idem _ _ _ hl
+    have hl2 := actions_len_after_mar _ _ _ _ _ hl1 hm
+    exact lenOf _ _ _ _ _ _ _ _ hl2
+  · intro l v1 bs v2 h1 h2
+    obtain ⟨l0, wt, wp, wg, p, as, ls, as1, bss, as2, rfl, hl, hm, rfl, rfl⟩ := shape v bs v2 h2
+    rw [lenOf _ _ _ _ _ _ _ _ hl] at h1
+    cases h1
+    have hl1 := actions_len_idem _ _ _ hl
+    exact build _ wt wp wg p as1 ls bss as2 hl1 hm
+
+
+
+/-! ### Hello -/
+
+theorem helloElemHeader_pure (v : V) : Pure2 HelloElemHeader.lenM HelloElemHeader.marshalM v :=
+  ⟨fun _ _ h => (same_ok _ _ _ _ h).2, HelloElemHeader.marshalM_pure v⟩
+theorem helloElemVersionBitmap_pure (v : V) : Pure2 HelloElemVersionBitmap.lenM HelloElemVersionBitmap.marshalM v :=
+  ⟨fun _ _ h => by
+      unfold HelloElemVersionBitmap.lenM at h
+      obtain ⟨_, _, h'⟩ := bind_ok_inv _ _ _ h
+      exact (same_ok _ _ _ _ h').2,
+   HelloElemVersionBitmap.marshalM_pure v⟩
+theorem helloElem_pure (v : V) : Pure2 HelloElem.lenM HelloElem.marshalM v := by
+  constructor
+  · intro l v1 h
+    unfold HelloElem.lenM at h
+    split at h
+    · exact (helloElemVersionBitmap_pure v).1 l v1 h
+    · exact (helloElemHeader_pure v).1 l v1 h
+    · exact absurd h (by simp)
+  · intro bs v2 h
+    unfold HelloElem.marshalM at h
+    split at h
+    · exact (helloElemVersionBitmap_pure v).2 bs v2 h
+    · exact (helloElemHeader_pure v).2 bs v2 h
+    · exact absurd h (by simp)
+
+/-- Hello.Len() changes nothing (no element's Len() does) -/
+theorem hello_len_pure (v : V) : LenPure Hello.lenM v := by
+  intro l v1 h
+  unfold Hello.lenM at h
+  split at h
+  · obtain ⟨⟨ls, es'⟩, hm, h'⟩ := bind_ok_inv _ _ _ h
+    cases h'
+    rw [mapM2_pure _ _ _ _ (fun x _ a x' hx => (helloElem_pure x).1 a x' hx) hm]
+  · exact absurd h (by simp)
+
+/-- Hello: MarshalBinary() stores `Header.Length = Len()`; repeatable in any order -/
+theorem hello_repeatable : ∀ v, Repeatable Hello.lenM Hello.marshalM v := by
+  apply repeatable_of_lenThen Hello.lenM
+    (fun l0 v => do
+      let (l1, v) ← Hello.lenM v
+      match v with
+      | .obj "Hello" [hdr, .list es] =>
+        let hdr := Header.setLength l1 hdr
+        let hb ← Header.bytes hdr
+        let (ebs, es') ← mapM2 HelloElem.marshalM es
+        let bs ← fill l0.toNat (pCopy hb :: ebs.map pCopy)
+        .ok (bs, .obj "Hello" [hdr, .list es'])
+      | _ => .panic)
+  · intro v; rfl
+  · intro v; exact (hello_len_pure v).idem
+  · intro l v1 bs v2 hl hE
+    simp only [hl, Res.bind_ok] at hE
+    split at hE
+    · rename_i hdr es
+      obtain ⟨hb, hhb, h3⟩ := bind_ok_inv _ _ _ hE
+      obtain ⟨⟨ebs, es'⟩, hm, h4⟩ := bind_ok_inv _ _ _ h3
+      obtain ⟨b, hf, h5⟩ := bind_ok_inv _ _ _ h4
+      cases h5
+      have hes := mapM2_pure _ _ _ _ (fun x _ a x' hx => (helloElem_pure x).2 a x' hx) hm
+      subst hes
+      have hl2 : Hello.lenM (.obj "Hello" [Header.setLength l hdr, .list es']) =
+          .ok (l, .obj "Hello" [Header.setLength l hdr, .list es']) := by
+        simp only [Hello.lenM] at hl ⊢
+        obtain ⟨⟨ls, es1⟩, hm1, hl'⟩ := bind_ok_inv _ _ _ hl
+        simp only [Res.ok.injEq, Prod.mk.injEq, V.obj.injEq, List.cons.injEq, V.list.injEq, true_and, and_true] at hl'
+        obtain ⟨e1, e2⟩ := hl'
+        subst e1; subst e2
+        simp only [hm1, Res.bind_ok]
+      refine ⟨hl2, ?_⟩
+      simp only [hl2, Res.bind_ok, Header.setLength_idem, hhb, hm, hf]
+    · exact absurd hE (by simp)
+
+/-! ### lists of instructions -/
+
+theorem instrs_loop (is : List V) (e : Bool) (bs : Bytes) (is2 : List V) (e' : Bool)
+    (h : marshalList Instruction.marshalM is e = .ok (bs, is2, e')) :
+    ∃ bss, mapM2 Instruction.marshalM is = .ok (bss, is2) ∧ bs = bss.flatten ∧ e' = (if is = [] then e else false) := by
+  obtain ⟨bss, hm, rfl⟩ := marshalList_eq_mapM2 _ _ _ _ _ _ (fun x _ => Instruction.marshalM_noErr x) h
+  exact ⟨bss, hm, rfl, marshalList_flag _ _ _ _ _ _ (fun x _ => Instruction.marshalM_noErr x) h⟩
+theorem instrs_len_idem (is : List V) (ls : List UInt16) (is1 : List V) (h : mapM2 Instruction.lenM is = .ok (ls, is1)) :
+    mapM2 Instruction.lenM is1 = .ok (ls, is1) :=
+  mapM2_idem Instruction.lenM is ls is1 (fun x _ a x' hx => Instruction.lenM_idem x a x' hx) h
+theorem instrs_mar_idem (is : List V) (bss : List Bytes) (is2 : List V) (h : mapM2 Instruction.marshalM is = .ok (bss, is2)) :
+    mapM2 Instruction.marshalM is2 = .ok (bss, is2) :=
+  mapM2_idem Instruction.marshalM is bss is2 (fun x _ b z hx => (instruction_repeatable x).marIdem b z hx) h
+theorem instrs_len_after_mar (is : List V) (ls : List UInt16) (is1 : List V) (bss : List Bytes) (is2 : List V)
+    (h1 : mapM2 Instruction.lenM is = .ok (ls, is1)) (h2 : mapM2 Instruction.marshalM is = .ok (bss, is2)) :
+    mapM2 Instruction.lenM is2 = .ok (ls, is2) :=
+  mapM2_len_after_mar Instruction.lenM Instruction.marshalM is ls is1 bss is2 h1 h2
+    (fun x _ l y b z hx hy => (instruction_repeatable x).lenAfterMar l y b z hx hy)
+
+/-! ### FlowMod -/
+
+/-- FlowMod.Len() does not look at the header -/
+theorem flowMod_len_hdr (h h2 ck cm tid cmd it ht pr bid op og fl pad m : V) (is is1 : List V) (l : UInt16) (m1 : V)
+    (hl : FlowMod.lenM (.obj "FlowMod" [h, ck, cm, tid, cmd, it, ht, pr, bid, op, og, fl, pad, m, .list is]) =
+      .ok (l, .obj "FlowMod" [h, ck, cm, tid, cmd, it, ht, pr, bid, op, og, fl, pad, m1, .list is1])) :
+    FlowMod.lenM (.obj "FlowMod" [h2, ck, cm, tid, cmd, it, ht, pr, bid, op, og, fl, pad, m, .list is]) =
+      .ok (l, .obj "FlowMod" [h2, ck, cm, tid, cmd, it, ht, pr, bid, op, og, fl, pad, m1, .list is1]) := by
+  unfold FlowMod.lenM at hl ⊢
+  split at hl
+  · rename_i heq
+    cases heq
+    obtain ⟨⟨ml, m'⟩, hml, hl2⟩ := bind_ok_inv _ _ _ hl
+    simp only [hml, Res.bind_ok]
+    simp only at hl2
+    split at hl2
+    · rename_i hd
+      simp only [hd, if_true]
+      simp only [Res.ok.injEq, Prod.mk.injEq, V.obj.injEq, List.cons.injEq, V.list.injEq, true_and, and_true] at hl2
+      obtain ⟨e1, e2, e3⟩ := hl2
+      simp only [e1, e2, e3]
+    · rename_i hd
+      simp only [hd, if_false]
+      obtain ⟨⟨ls, is'⟩, hm, hl3⟩ := bind_ok_inv _ _ _ hl2
+      simp only [Res.ok.injEq, Prod.mk.injEq, V.obj.injEq, List.cons.injEq, V.list.injEq, true_and, and_true] at hl3
+      obtain ⟨e1, e2, e3⟩ := hl3
+      simp only [hm, Res.bind_ok, e1, e2, e3]
+  · exact absurd hl (by simp)
+
+/-- the pieces of a successful FlowMod.Len() -/
+theorem flowMod_len_shape (v : V) (l : UInt16) (v1 : V) (hl : FlowMod.lenM v = .ok (l, v1)) :
+    ∃ h ck cm tid cmd it ht pr bid op og fl pad m is ml m1 is1,
+      v = .obj "FlowMod" [h, ck, cm, tid, .num cmd, it, ht, pr, bid, op, og, fl, pad, m, .list is] ∧
+      v1 = .obj "FlowMod" [h, ck, cm, tid, .num cmd, it, ht, pr, bid, op, og, fl, pad, m1, .list is1] ∧
+      Match.lenM m = .ok (ml, m1) ∧
+      ((cmd = Gen.openflow13.FC_DELETE ∨ cmd = Gen.openflow13.FC_DELETE_STRICT) ∧ is1 = is ∧ l = 8 + 40 + ml ∨
+       ¬(cmd = Gen.openflow13.FC_DELETE ∨ cmd = Gen.openflow13.FC_DELETE_STRICT) ∧
+         ∃ ls, mapM2 Instruction.lenM is = .ok (ls, is1) ∧ l = 8 + 40 + ml + sum16 ls) := by
+  unfold FlowMod.lenM at hl
+  split at hl
+  · rename_i h ck cm tid cmd it ht pr bid op og fl pad m is
+    obtain ⟨⟨ml, m'⟩, hml, hl2⟩ := bind_ok_inv _ _ _ hl
+    simp only at hl2
+    split at hl2
+    · rename_i hd
+      cases hl2
+      exact ⟨h, ck, cm, tid, cmd, it, ht, pr, bid, op, og, fl, pad, m, is, ml, m', is, rfl, rfl, hml, Or.inl ⟨hd, rfl, rfl⟩⟩
+    · rename_i hd
+      obtain ⟨⟨ls, is'⟩, hm, hl3⟩ := bind_ok_inv _ _ _ hl2
+      cases hl3
+      exact ⟨h, ck, cm, tid, cmd, it, ht, pr, bid, op, og, fl, pad, m, is, ml, m', is', rfl, rfl, hml, Or.inr ⟨hd, ls, hm, rfl⟩⟩
+  · exact absurd hl (by simp)
+
+theorem flowMod_len_build (h ck cm tid : V) (cmd : Nat) (it ht pr bid op og fl pad m : V) (is : List V) (ml : UInt16) (m1 : V)
+    (hml : Match.lenM m = .ok (ml, m1)) :
+    ((cmd = Gen.openflow13.FC_DELETE ∨ cmd = Gen.openflow13.FC_DELETE_STRICT) →
+      FlowMod.lenM (.obj "FlowMod" [h, ck, cm, tid, .num cmd, it, ht, pr, bid, op, og, fl, pad, m, .list is]) =
+        .ok (8 + 40 + ml, .obj "FlowMod" [h, ck, cm, tid, .num cmd, it, ht, pr, bid, op, og, fl, pad, m1, .list is])) ∧
+    (¬(cmd = Gen.openflow13.FC_DELETE ∨ cmd = Gen.openflow13.FC_DELETE_STRICT) → ∀ ls is1,
+      mapM2 Instruction.lenM is = .ok (ls, is1) →
+      FlowMod.lenM (.obj "FlowMod" [h, ck, cm, tid, .num cmd, it, ht, pr, bid, op, og, fl, pad, m, .list is]) =
+        .ok (8 + 40 + ml + sum16 ls, .obj "FlowMod" [h, ck, cm, tid, .num cmd, it, ht, pr, bid, op, og, fl, pad, m1, .list is1])) := by
+  constructor
+  · intro hd
+    simp only [FlowMod.lenM, hml, Res.bind_ok, hd, if_true]
+  · intro hd ls is1 hm
+    simp only [FlowMod.lenM, hml, Res.bind_ok, hd, if_false, hm]
+
+/-- FlowMod: MarshalBinary() stores `Header.Length = Len()`, and the instructions (and their actions) may store things
+    too; sizing / encoding again, in any order, gives the same answers and changes nothing further -/
+theorem flowMod_repeatable : ∀ v, Repeatable FlowMod.lenM FlowMod.marshalM v := by
+  have hidem : ∀ v, LenIdem FlowMod.lenM v := by
+    intro v l v1 hl
+    obtain ⟨h, ck, cm, tid, cmd, it, ht, pr, bid, op, og, fl, pad, m, is, ml, m1, is1, rfl, rfl, hml, hcase⟩ :=
+      flowMod_len_shape v l v1 hl
+    have em := Match.lenM_pure _ _ _ hml
+    subst em
+    rcases hcase with ⟨hd, rfl, rfl⟩ | ⟨hd, ls, hm, rfl⟩
+    · exact (flowMod_len_build h ck cm tid cmd it ht pr bid op og fl pad m1 is1 ml m1 hml).1 hd
+    · exact (flowMod_len_build h ck cm tid cmd it ht pr bid op og fl pad m1 is1 ml m1 hml).2 hd ls is1 (instrs_len_idem _ _ _ hm)
+  apply repeatable_of_lenThen FlowMod.lenM
+    (fun l v => match v with
+      | .obj "FlowMod" [h, .num ck, .num cm, .num tid, .num cmd, .num it, .num ht, .num pr, .num bid, .num op, .num og,
+          .num fl, pad, m, .list is] => do
+        let h := Header.setLength l h
+        let hb ← Header.bytes h
+        let fixed := be64 (n64 ck) ++ be64 (n64 cm) ++ [n8 tid, n8 cmd] ++ be16 (n16 it) ++ be16 (n16 ht)
+          ++ be16 (n16 pr) ++ be32 (n32 bid) ++ be32 (n32 op) ++ be32 (n32 og)
+          ++ be16 (n16 fl) ++ zeros 2
+        let ((mb, m'), e0) ← catchErr (Match.marshalM m) ([], m)
+        let (ib, is', e) ← (if cmd = Gen.openflow13.FC_DELETE ∨ cmd = Gen.openflow13.FC_DELETE_STRICT
+          then (.ok ([], is, e0) : R (Bytes × List V × Bool)) else marshalList Instruction.marshalM is e0)
+        if e then .err
+        else .ok (hb ++ fixed ++ mb ++ ib,
+          .obj "FlowMod" [h, .num ck, .num cm, .num tid, .num cmd, .num it, .num ht, .num pr, .num bid, .num op, .num og,
+            .num fl, pad, m', .list is'])
+      | _ => .panic)
+  · intro v; rfl
+  · exact hidem
+  · intro l v1 bs v2 hl hE
+    split at hE
+    · rename_i h ck cm tid cmd it ht pr bid op og fl pad m is
+      obtain ⟨hb, hhb, h3⟩ := bind_ok_inv _ _ _ hE
+      obtain ⟨⟨⟨mb, m'⟩, e0⟩, hmm, h4⟩ := bind_ok_inv _ _ _ h3
+      obtain ⟨hmm', he0⟩ := catchErr_noErr _ _ _ _ (Match.marshalM_noErr _) hmm
+      subst he0
+      have em := Match.marshalM_pure _ _ _ hmm'
+      subst em
+      obtain ⟨h0, ck0, cm0, tid0, cmd0, it0, ht0, pr0, bid0, op0, og0, fl0, pad0, m0, is0, ml, m1, is1, heq, heq1, hml, hcase⟩ :=
+        flowMod_len_shape _ l _ hl
+      cases heq
+      cases heq1
+      by_cases hd : cmd = Gen.openflow13.FC_DELETE ∨ cmd = Gen.openflow13.FC_DELETE_STRICT
+      · simp only [hd, if_true, Res.bind_ok] at h4
+        split at h4
+        · exact absurd h4 (by simp)
+        · cases h4
+          have hl2 := flowMod_len_hdr _ (Header.setLength l h) _ _ _ _ _ _ _ _ _ _ _ _ _ _ _ _ _ hl
+          refine ⟨hl2, ?_⟩
+          simp only [Header.setLength_idem, hhb, hmm, Res.bind_ok, hd, if_true]
+          rfl
+      · simp only [hd, if_false] at h4
+        obtain ⟨⟨ib, is2, e⟩, hml2, h5⟩ := bind_ok_inv _ _ _ h4
+        obtain ⟨bss, hmi, rfl, he⟩ := instrs_loop _ _ _ _ _ hml2
+        have he' : e = false := by rw [he]; split <;> rfl
+        subst he'
+        simp only at h5
+        cases h5
+        rcases hcase with ⟨hd', _, _⟩ | ⟨_, ls, hm, rfl⟩
+        · exact absurd hd' hd
+        · have hm2 := instrs_len_after_mar _ _ _ _ _ hm hmi
+          have hl2 := (flowMod_len_build (Header.setLength (8 + 40 + ml + sum16 ls) h) (.num ck) (.num cm) (.num tid) cmd
+            (.num it) (.num ht) (.num pr) (.num bid) (.num op) (.num og) (.num fl) pad _ is2 ml _ hml).2 hd ls is2 hm2
+          refine ⟨hl2, ?_⟩
+          have hmi2 := instrs_mar_idem _ _ _ hmi
+          have := marshalList_of_mapM2 Instruction.marshalM is2 false bss is2 hmi2
+          simp only [Header.setLength_idem, hhb, hmm, Res.bind_ok, hd, if_false, this]
+          split <;> simp
+    · exact absurd hE (by simp)
+
+
+/-! ### GroupMod -/
+
+/-- Bucket.Len() / MarshalBinary() do not look at the stored Length field -/
+theorem bucket_len_ignores (x l0 w wp wg p as : V) (l : UInt16) (v1 : V)
+    (h : Bucket.lenM (.obj "Bucket" [l0, w, wp, wg, p, as]) = .ok (l, v1)) :
+    ∃ as1, v1 = .obj "Bucket" [l0, w, wp, wg, p, as1] ∧
+      Bucket.lenM (.obj "Bucket" [x, w, wp, wg, p, as]) = .ok (l, .obj "Bucket" [x, w, wp, wg, p, as1]) := by
+  unfold Bucket.lenM at h ⊢
+  split at h
+  · rename_i heq
+    cases heq
+    obtain ⟨⟨ls, as'⟩, hm, h'⟩ := bind_ok_inv _ _ _ h
+    cases h'
+    exact ⟨_, rfl, by simp only [hm, Res.bind_ok]⟩
+  · exact absurd h (by simp)
+
+theorem bucket_mar_ignores (x l0 w wp wg p as : V) (bs : Bytes) (v2 : V)
+    (h : Bucket.marshalM (.obj "Bucket" [l0, w, wp, wg, p, as]) = .ok (bs, v2)) :
+    Bucket.marshalM (.obj "Bucket" [x, w, wp, wg, p, as]) = .ok (bs, v2) := by
+  unfold Bucket.marshalM at h ⊢
+  obtain ⟨⟨l, v1⟩, hl, h3⟩ := bind_ok_inv _ _ _ h
+  obtain ⟨as1, rfl, hl'⟩ := bucket_len_ignores x l0 w wp wg p as l v1 hl
+  rw [hl']
+  simp only [Res.bind_ok] at h3 ⊢
+  split at h3
+  · rename_i heq
+    cases heq
+    exact h3
+  · exact absurd h3 (by simp)
+
+/-- what a bucket's encoder returns has the shape of a bucket -/
+theorem bucket_mar_shape (v : V) (bs : Bytes) (v2 : V) (h : Bucket.marshalM v = .ok (bs, v2)) :
+    (∃ l0 w wp wg p as, v = .obj "Bucket" [l0, w, wp, wg, p, as]) ∧ (∃ l w wp wg p as, v2 = .obj "Bucket" [l, w, wp, wg, p, as]) := by
+  unfold Bucket.marshalM at h
+  obtain ⟨⟨l, v1⟩, hl, h3⟩ := bind_ok_inv _ _ _ h
+  unfold Bucket.lenM at hl
+  split at hl
+  · obtain ⟨⟨ls, as'⟩, hm, h'⟩ := bind_ok_inv _ _ _ hl
+    cases h'
+    simp only at h3
+    split at h3
+    · obtain ⟨⟨abs, as2, e⟩, hml, h4⟩ := bind_ok_inv _ _ _ h3
+      simp only at h4
+      split at h4
+      · exact absurd h4 (by simp)
+      · cases h4
+        exact ⟨⟨_, _, _, _, _, _, rfl⟩, ⟨_, _, _, _, _, _, rfl⟩⟩
+    · exact absurd h3 (by simp)
+  · exact absurd hl (by simp)
+
+/-- the encoder GroupMod uses for its buckets (MarshalBinary() on a COPY of the bucket struct: the Length it stores is
+    lost, what the shared action pointers store is kept): repeatable together with Bucket.Len() -/
+theorem bucketCopy_repeatable (v : V) : Repeatable Bucket.lenM Bucket.marshalCopyM v := by
+  have R := bucket_repeatable
+  have unf : ∀ w bs w2, Bucket.marshalCopyM w = .ok (bs, w2) →
+      ∃ w2', Bucket.marshalM w = .ok (bs, w2') ∧ w2 = Bucket.setLength (Bucket.length w) w2' := by
+    intro w bs w2 h
+    unfold Bucket.marshalCopyM at h
+    obtain ⟨⟨b, w2'⟩, hm, h'⟩ := bind_ok_inv _ _ _ h
+    cases h'
+    exact ⟨w2', hm, rfl⟩
+  have fold : ∀ w bs w2', Bucket.marshalM w = .ok (bs, w2') →
+      Bucket.marshalCopyM w = .ok (bs, Bucket.setLength (Bucket.length w) w2') := by
+    intro w bs w2' h
+    simp only [Bucket.marshalCopyM, h, Res.bind_ok, Res.pure_eq]
+  refine ⟨(R v).lenIdem, ?_, ?_, ?_⟩
+  · intro bs v2 h2
+    obtain ⟨v2', hm, rfl⟩ := unf v bs v2 h2
+    obtain ⟨⟨l0, w, wp, wg, p, as, rfl⟩, ⟨l', w', wp', wg', p', as', rfl⟩⟩ := bucket_mar_shape v bs v2' hm
+    have hm2 := (R _).marIdem bs _ hm
+    have hm3 := bucket_mar_ignores l0 _ _ _ _ _ _ bs _ hm2
+    simp only [Bucket.length, Bucket.setLength]
+    have := fold _ _ _ hm3
+    simpa only [Bucket.length, Bucket.setLength] using this
+  · intro l v1 bs v2 h1 h2
+    obtain ⟨v2', hm, rfl⟩ := unf v bs v2 h2
+    obtain ⟨⟨l0, w, wp, wg, p, as, rfl⟩, ⟨l', w', wp', wg', p', as', rfl⟩⟩ := bucket_mar_shape v bs v2' hm
+    have hl2 := (R _).lenAfterMar l v1 bs _ h1 hm
+    obtain ⟨as1, heq, hl3⟩ := bucket_len_ignores l0 _ _ _ _ _ _ l _ hl2
+    simp only [Bucket.length, Bucket.setLength]
+    simp only [V.obj.injEq, List.cons.injEq, true_and, and_true] at heq
+    rw [← heq] at hl3
+    exact hl3
+  · intro l v1 bs v2 h1 h2
+    obtain ⟨v2', hm, rfl⟩ := unf v bs v2 h2
+    obtain ⟨⟨l0, w, wp, wg, p, as, rfl⟩, _⟩ := bucket_mar_shape v bs v2' hm
+    have hm1 := (R _).marAfterLen l v1 bs _ h1 hm
+    obtain ⟨as1, rfl, _⟩ := bucket_len_ignores l0 l0 w wp wg p as l v1 h1
+    have := fold _ _ _ hm1
+    simpa only [Bucket.length] using this
+
+theorem buckets_loop (bks : List V) (e : Bool) (bs : Bytes) (bks2 : List V) (e' : Bool)
+    (h : marshalList Bucket.marshalCopyM bks e = .ok (bs, bks2, e')) :
+    ∃ bss, mapM2 Bucket.marshalCopyM bks = .ok (bss, bks2) ∧ bs = bss.flatten ∧ e' = (if bks = [] then e else false) := by
+  obtain ⟨bss, hm, rfl⟩ := marshalList_eq_mapM2 _ _ _ _ _ _ (fun x _ => Bucket.marshalCopyM_noErr x) h
+  exact ⟨bss, hm, rfl, marshalList_flag _ _ _ _ _ _ (fun x _ => Bucket.marshalCopyM_noErr x) h⟩
+
+/-- the pieces of a successful GroupMod.Len() -/
+theorem groupMod_len_shape (v : V) (l : UInt16) (v1 : V) (hl : GroupMod.lenM v = .ok (l, v1)) :
+    ∃ h cmd t p g bks bks1,
+      v = .obj "GroupMod" [h, .num cmd, t, p, g, .list bks] ∧ v1 = .obj "GroupMod" [h, .num cmd, t, p, g, .list bks1] ∧
+      (cmd = Gen.openflow13.OFPGC_DELETE ∧ bks1 = bks ∧ l = 16 ∨
+       cmd ≠ Gen.openflow13.OFPGC_DELETE ∧ ∃ ls, mapM2 Bucket.lenM bks = .ok (ls, bks1) ∧ l = 16 + sum16 ls) := by
+  unfold GroupMod.lenM at hl
+  split at hl
+  · rename_i h cmd t p g bks
+    split at hl
+    · rename_i hd
+      cases hl
+      exact ⟨h, cmd, t, p, g, bks, bks, rfl, rfl, Or.inl ⟨hd, rfl, rfl⟩⟩
+    · rename_i hd
+      obtain ⟨⟨ls, bks'⟩, hm, hl3⟩ := bind_ok_inv _ _ _ hl
+      cases hl3
+      exact ⟨h, cmd, t, p, g, bks, bks', rfl, rfl, Or.inr ⟨hd, ls, hm, rfl⟩⟩
+  · exact absurd hl (by simp)
+
+theorem groupMod_len_build (h : V) (cmd : Nat) (t p g : V) (bks : List V) :
+    (cmd = Gen.openflow13.OFPGC_DELETE →
+      GroupMod.lenM (.obj "GroupMod" [h, .num cmd, t, p, g, .list bks]) = .ok (16, .obj "GroupMod" [h, .num cmd, t, p, g, .list bks])) ∧
+    (cmd ≠ Gen.openflow13.OFPGC_DELETE → ∀ ls bks1, mapM2 Bucket.lenM bks = .ok (ls, bks1) →
+      GroupMod.lenM (.obj "GroupMod" [h, .num cmd, t, p, g, .list bks]) =
+        .ok (16 + sum16 ls, .obj "GroupMod" [h, .num cmd, t, p, g, .list bks1])) := by
+  constructor
+  · intro hd
+    simp only [GroupMod.lenM, hd, if_true]
+  · intro hd ls bks1 hm
+    simp only [GroupMod.lenM, hd, if_false, hm, Res.bind_ok]
+
+/-- GroupMod: MarshalBinary() stores `Header.Length = Len()`; the buckets are encoded from copies (their Length is
+    not stored) but their actions keep what they store.  Repeatable in any order. -/
+theorem groupMod_repeatable : ∀ v, Repeatable GroupMod.lenM GroupMod.marshalM v := by
+  have RB := bucketCopy_repeatable
+  have hidem : ∀ v, LenIdem GroupMod.lenM v := by
+    intro v l v1 hl
+    obtain ⟨h, cmd, t, p, g, bks, bks1, rfl, rfl, hcase⟩ := groupMod_len_shape v l v1 hl
+    rcases hcase with ⟨hd, rfl, rfl⟩ | ⟨hd, ls, hm, rfl⟩
+    · exact (groupMod_len_build h cmd t p g bks1).1 hd
+    · exact (groupMod_len_build h cmd t p g bks1).2 hd ls bks1
+        (mapM2_idem Bucket.lenM _ _ _ (fun x _ a x' hx => Bucket.lenM_idem x a x' hx) hm)
+  apply repeatable_of_lenThen GroupMod.lenM
+    (fun l v => match v with
+      | .obj "GroupMod" [h, .num cmd, .num t, .num p, .num g, .list bs] => do
+        let h := Header.setLength l h
+        let hb ← Header.bytes h
+        let (bb, bs', e) ← (if cmd = Gen.openflow13.OFPGC_DELETE
+          then (.ok ([], bs, false) : R (Bytes × List V × Bool)) else marshalList Bucket.marshalCopyM bs false)
+        if e then .err
+        else .ok (hb ++ be16 (n16 cmd) ++ [n8 t, n8 p] ++ be32 (n32 g) ++ bb,
+                  .obj "GroupMod" [h, .num cmd, .num t, .num p, .num g, .list bs'])
+      | _ => .panic)
+  · intro v; rfl
+  · exact hidem
+  · intro l v1 bs v2 hl hE
+    split at hE
+    · rename_i h cmd t p g bks
+      obtain ⟨hb, hhb, h3⟩ := bind_ok_inv _ _ _ hE
+      obtain ⟨h0, cmd0, t0, p0, g0, bks0, bks1, heq, heq1, hcase⟩ := groupMod_len_shape _ l _ hl
+      cases heq
+      cases heq1
+      by_cases hd : cmd = Gen.openflow13.OFPGC_DELETE
+      · subst hd
+        simp only [if_true, Res.bind_ok] at h3
+        split at h3
+        · exact absurd h3 (by simp)
+        · cases h3
+          rcases hcase with ⟨_, _, rfl⟩ | ⟨hd', _⟩
+          · refine ⟨(groupMod_len_build _ _ _ _ _ _).1 rfl, ?_⟩
+            simp only [Header.setLength_idem, hhb, Res.bind_ok, if_true]
+            rfl
+          · exact absurd rfl hd'
+      · simp only [hd, if_false] at h3
+        obtain ⟨⟨bb, bks2, e⟩, hml2, h5⟩ := bind_ok_inv _ _ _ h3
+        obtain ⟨bss, hmi, rfl, he⟩ := buckets_loop _ _ _ _ _ hml2
+        have he' : e = false := by rw [he]; split <;> rfl
+        subst he'
+        simp only at h5
+        cases h5
+        rcases hcase with ⟨hd', _, _⟩ | ⟨_, ls, hm, rfl⟩
+        · exact absurd hd' hd
+        · have hm2 := mapM2_len_after_mar Bucket.lenM Bucket.marshalCopyM _ _ _ _ _ hm hmi
+            (fun x _ l y b z hx hy => (RB x).lenAfterMar l y b z hx hy)
+          refine ⟨(groupMod_len_build _ cmd _ _ _ _).2 hd ls bks2 hm2, ?_⟩
+          have hmi2 := mapM2_idem Bucket.marshalCopyM _ _ _ (fun x _ b z hx => (RB x).marIdem b z hx) hmi
+          have := marshalList_of_mapM2 Bucket.marshalCopyM bks2 false bss bks2 hmi2
+          simp only [Header.setLength_idem, hhb, Res.bind_ok, hd, if_false, this]
+          split <;> simp
+    · exact absurd hE (by simp)
 
 
 end OFV.Props.C13
